@@ -1035,9 +1035,11 @@ class OneHotMux(Logic):
         for idx, sel in enumerate(sels):
             inv = ins[idx]
             
-            sel_name = sel.name
-            in_name = inv.name 
+            # ports are named after the connected wires, wire names are only unique
+            # inside the block that owns them: keep the port names of a block distinct
+            sel_name = self.uniquePortName(sel.name, idx)
             self.addIn(sel_name, sel)
+            in_name = self.uniquePortName(inv.name, idx)
             self.addIn(in_name, inv)
             selx = self.wire('selx{}'.format(idx), inv.getWidth())
             and_sel = self.wire('and_sel{}'.format(idx), inv.getWidth())
@@ -1048,6 +1050,15 @@ class OneHotMux(Logic):
 
         self.addOut('r', r)
         Or(self, 'or', final, r)
+
+    def uniquePortName(self, name, idx):
+        used = [p.name for p in self.inPorts] + ['r']
+        if not(name in used):
+            return name
+        n = '{}_{}'.format(name, idx)
+        while (n in used):
+            n = n + '_'
+        return n
 
 
 class OneHotDemux(Logic):
